@@ -438,6 +438,31 @@ fn whole_run(n: usize, cut: usize) {
     forget(b_src);
 }
 
+// ---------------------------------------------------------------------------------------------
+// Locality of rejection (L1 for the decode loop): a byte the grammar rejects in the current state is
+// rejected whatever FOLLOWS it in the same buffer (so no look-ahead "fast path" can accept what the
+// byte-wise automaton rejects, and the verdict cannot depend on where the read boundary falls).
+// First byte concrete (one representative per rejected class), `tail` further symbolic bytes.
+fn reject_with_tail(st: St, first: u8, csize: Option<u64>, tail: usize) {
+    let mut bytes: [u8; 8] = kani::any();
+    bytes[0] = first;
+    let n = 1 + tail;
+    let size0: u64 = match csize {
+        Some(z) => z,
+        None => kani::any(),
+    };
+    kani::assume(inv(st, size0));
+    assert!(spec_step(st, size0, &bytes[..1]) == Spec::Error, "harness instance must start with a rejected byte");
+    let mut src = BytesMut::from(&bytes[..n]);
+    let mut dec = PayloadDecoder { kind: Kind::Chunked(to_real(st), size0) };
+    let r = dec.decode(&mut src);
+    assert!(r.is_err(), "bad chunk syntax is rejected whatever follows it in the buffer");
+    kani::cover!(true, "harness end reached");
+    forget(r);
+    forget(src);
+    forget(dec);
+}
+
 // ---- harness instances (generated).  One harness = one lemma at one CONCRETE buffer length, run for
 // a group of concrete decoder states in turn (state concrete per call; bytes and size counter symbolic).
 #[kani::proof]
@@ -518,7 +543,7 @@ fn c01_step_end_b2() {
 #[kani::proof]
 #[kani::stub(tracing::callsite::DefaultCallsite::register, stub_tracing_register)]
 #[kani::unwind(6)]
-fn c01_step_size_line_b3_t() {
+fn c01_step_size_line_b3() {
     step_lemma(St::Size, 3);
     step_lemma(St::SizeLws, 3);
     step_lemma(St::Extension, 3);
@@ -527,7 +552,7 @@ fn c01_step_size_line_b3_t() {
 #[kani::proof]
 #[kani::stub(tracing::callsite::DefaultCallsite::register, stub_tracing_register)]
 #[kani::unwind(6)]
-fn c01_step_body_b3_t() {
+fn c01_step_body_b3() {
     step_lemma(St::Body, 3);
     step_lemma(St::BodyCr, 3);
     step_lemma(St::BodyLf, 3);
@@ -535,7 +560,7 @@ fn c01_step_body_b3_t() {
 #[kani::proof]
 #[kani::stub(tracing::callsite::DefaultCallsite::register, stub_tracing_register)]
 #[kani::unwind(6)]
-fn c01_step_end_b3_t() {
+fn c01_step_end_b3() {
     step_lemma(St::EndCr, 3);
     step_lemma(St::EndLf, 3);
     step_lemma(St::End, 3);
@@ -543,7 +568,7 @@ fn c01_step_end_b3_t() {
 #[kani::proof]
 #[kani::stub(tracing::callsite::DefaultCallsite::register, stub_tracing_register)]
 #[kani::unwind(6)]
-fn c01_step_size_line_b4_t() {
+fn c01_step_size_line_b4() {
     step_lemma(St::Size, 4);
     step_lemma(St::SizeLws, 4);
     step_lemma(St::Extension, 4);
@@ -552,7 +577,7 @@ fn c01_step_size_line_b4_t() {
 #[kani::proof]
 #[kani::stub(tracing::callsite::DefaultCallsite::register, stub_tracing_register)]
 #[kani::unwind(6)]
-fn c01_step_body_b4_t() {
+fn c01_step_body_b4() {
     step_lemma(St::Body, 4);
     step_lemma(St::BodyCr, 4);
     step_lemma(St::BodyLf, 4);
@@ -560,7 +585,7 @@ fn c01_step_body_b4_t() {
 #[kani::proof]
 #[kani::stub(tracing::callsite::DefaultCallsite::register, stub_tracing_register)]
 #[kani::unwind(6)]
-fn c01_step_end_b4_t() {
+fn c01_step_end_b4() {
     step_lemma(St::EndCr, 4);
     step_lemma(St::EndLf, 4);
     step_lemma(St::End, 4);
@@ -689,14 +714,14 @@ fn c01_length_and_eof_b2() {
 #[kani::proof]
 #[kani::stub(tracing::callsite::DefaultCallsite::register, stub_tracing_register)]
 #[kani::unwind(6)]
-fn c01_length_and_eof_b3_t() {
+fn c01_length_and_eof_b3() {
     length_lemma(3);
     eof_lemma(3);
 }
 #[kani::proof]
 #[kani::stub(tracing::callsite::DefaultCallsite::register, stub_tracing_register)]
 #[kani::unwind(6)]
-fn c01_length_and_eof_b4_t() {
+fn c01_length_and_eof_b4() {
     length_lemma(4);
     eof_lemma(4);
 }
@@ -719,9 +744,35 @@ fn c01_whole_run_b3_cut2_t() {
     whole_run(3, 2);
 }
 
+#[kani::proof]
+#[kani::stub(tracing::callsite::DefaultCallsite::register, stub_tracing_register)]
+#[kani::unwind(10)]
+fn c01_reject_with_tail_size_line() {
+    reject_with_tail(St::Size, b'+', Some(0), 4);
+    reject_with_tail(St::Size, b'g', Some(0), 4);
+    reject_with_tail(St::Size, b'-', Some(3), 5);
+    reject_with_tail(St::Size, b'\n', Some(0), 3);
+    reject_with_tail(St::SizeLws, b'1', None, 4);
+    reject_with_tail(St::Extension, b'\n', None, 4);
+    reject_with_tail(St::SizeLf, b'\r', None, 4);
+}
+#[kani::proof]
+#[kani::stub(tracing::callsite::DefaultCallsite::register, stub_tracing_register)]
+#[kani::unwind(10)]
+fn c01_reject_with_tail_body_end() {
+    reject_with_tail(St::BodyCr, b'\n', None, 4);
+    reject_with_tail(St::BodyCr, b'x', None, 2);
+    reject_with_tail(St::BodyLf, b'\r', None, 4);
+    reject_with_tail(St::BodyLf, b'G', None, 3);
+    reject_with_tail(St::EndCr, b'\n', None, 4);
+    reject_with_tail(St::EndCr, b'T', None, 6);
+    reject_with_tail(St::EndLf, b'\r', None, 4);
+}
+
 #[cfg(test)]
 mod playback {
     #[allow(unused_imports)]
     use super::*;
     include!(concat!(env!("VERIF_PLAYBACK"), "/actix_http__h1_decoder.rs"));
 }
+
